@@ -2,6 +2,8 @@
 
 #include <yaclib/fault/detail/fiber/atomic_wait.hpp>
 
+#include <cstring>
+#include <memory>
 #include <utility>
 
 namespace yaclib::detail::fiber {
@@ -70,7 +72,8 @@ class AtomicBase : public AtomicWait<T> {
 
  protected:
   bool CompareExchangeHelper(T& expected, T desired) {
-    if (this->_value == expected) {
+    // std::atomic compares object representations, not values: -0.0 is not +0.0, a NaN is equal to itself
+    if (std::memcmp(std::addressof(this->_value), std::addressof(expected), sizeof(T)) == 0) {
       this->_value = desired;
       return true;
     } else {
